@@ -30,6 +30,8 @@ def sig_of(f):
     ev = next((x for x in tr if x["i"] == f["i"]), {})
     why = f.get("why", "rejected")
     if ev.get("ev") == "Pos":
+        if why == "context" and ev.get("wf") and ev.get("pl", 0) >= 100000:
+            return "position/Pos/context/line-number-wider-than-5-digits", ev     # the prefix is wider than the caret line assumes
         regime = "malformed" if not ev.get("wf") else {(False, False): "unelided", (True, False): "front-elided",
                                                         (False, True): "rear-elided", (True, True): "both-elided"}[(bool(ev.get("ef")), bool(ev.get("er")))]
         return "position/Pos/%s/%s/%s" % (why, regime, _where(ev, tr)), ev
@@ -45,8 +47,9 @@ def describe(f, ev):
         return "parse.Position(text, %s) on text rl=%s (class,count runs; classes 1-4 printable of 1-4 bytes, 5/6 non-printable 1/3 bytes, 7 LF, 8 CR, 9 LS, 10 PS; cs=%s) returned %s: %s rejected by Position.tla" % (
             ev.get("off"), json.dumps(n0.get("rl")), n0.get("cs"), json.dumps({k: ev.get(k) for k in ("line", "col", "wf", "pl", "ef", "er", "k", "out")}), f.get("why"))
     text = bytes(n0.get("bytes") or []).decode("utf-8", "backslashreplace")
-    return "%s on input %r (inserted illegal character at offset %s): %s; %s rejected by ErrorPos.tla" % (
-        n0.get("suite"), text, n0.get("ins"), json.dumps({k: ev.get(k) for k in ("ev", "line", "col", "matches", "cur", "msg", "out")}), f.get("why"))
+    ins = n0.get("ins", -1)
+    return "%s on input %r (%s): %s; %s rejected by ErrorPos.tla" % (
+        n0.get("suite"), text, "illegal character inserted at offset %d" % ins if ins >= 0 else "mutated document", json.dumps({k: ev.get(k) for k in ("ev", "line", "col", "matches", "cur", "msg", "out")}), f.get("why"))
 
 
 def judge(ck, fails, origin_of):
@@ -99,7 +102,7 @@ def interleave(paths, canary_path, bulk_paths, every):
     return total
 
 
-TID0 = {"enum": 0, "run": 10000000, "insert": 20000000, "record": 30000000}
+TID0 = {"enum": 0, "lines": 5000000, "run": 10000000, "insert": 20000000, "record": 30000000}
 
 
 def origin_of(t):
@@ -109,17 +112,19 @@ def origin_of(t):
 def run(ck):
     thorough = ck.tier == "thorough"
     tier = "thorough" if thorough else "quick"
-    cases = {k: ck.path("cases-%s.ndjson" % k) for k in ("enum", "run", "insert")}
+    cases = {k: ck.path("cases-%s.ndjson" % k) for k in ("enum", "lines", "run", "insert")}
     r1 = ck.tlc("text", "PositionGen", "MC_enum_%s.cfg" % tier, label="all texts x all offsets; run-length operators = definition", env={"VERIF_CASES": cases["enum"]}, timeout=1500)
     r2 = ck.tlc("text", "PositionGen", "MC_run_%s.cfg" % tier, label="run-length texts around the elision limits", env={"VERIF_CASES": cases["run"]}, timeout=1500)
+    ck.tlc("text", "PositionGen", "MC_lines_%s.cfg" % tier, label="texts with 10^4..10^6 lines (line numbers of 5 and more digits)", env={"VERIF_CASES": cases["lines"]}, timeout=900)
     r3 = ck.tlc("text", "InsertGen", "MC_insert_%s.cfg" % tier, label="JS/JSON documents x token boundaries", env={"VERIF_CASES": cases["insert"]}, timeout=900)
     ck.cov["exhaustive"] = True
     ck.cov["constants"] = {"enum": {"classes": 10, "MaxLen": 5 if thorough else 4, "offsets": "-1..len+1"},
                            "run": {"RunClasses": [1, 2, 3, 4, 5, 6] if thorough else [1, 3], "XClasses": "all 10",
                                    "Counts": [0, 1, 19, 20, 21, 39, 40, 41, 56, 57, 58, 59, 60, 61, 80]},
+                           "lines": {"LineCounts": [9998, 9999, 99998, 99999] + ([999998, 999999] if thorough else [])},
                            "insert": {"js_statements": 11, "js_separators": 7, "json_documents": 8, "illegal": ["@", "0x01", "\\", "U+0080"]}}
     sums = {}
-    for k in ("enum", "run", "insert"):
+    for k in ("enum", "lines", "run", "insert"):
         s = sums[k] = ck.drive("position", "replay", "-cases", cases[k], "-out", ck.path(k + ".ndjson"), "-seed", ck.seed, "-tid0", TID0[k])
         if s["cases"] == 0 or s["executions"] == 0:
             ck.fatal("generator %s produced no cases" % k)
@@ -138,12 +143,12 @@ def run(ck):
                       "character is not at line 1 column 1. record: seeded random class texts x random offsets (non-trivial = more than one character) "
                       "and seeded random mutations of small JS/JSON/CSS/XML/HTML documents (non-trivial = distinct input that produced a *parse.Error)")
     ck.cov["samples"] = (sums["run"].get("samples") or [])[:1] + (sums["insert"].get("samples") or [])[:1] + (sums["record"].get("samples") or [])[1:2]
-    ck.cov["model_drift"] = [x for k in ("enum", "run", "insert") for x in (sums[k].get("mismatch_samples") or [])][:5]
+    ck.cov["model_drift"] = [x for k in ("enum", "lines", "run", "insert") for x in (sums[k].get("mismatch_samples") or [])][:5]
 
     # A sample of the traces is validated first: if the code is broadly wrong, thousands of traces are rejected and the
     # sample is enough to report it; the rest is validated only if the sample shows nothing new.
     bulk = [ck.path("bulk%d.ndjson" % k) for k in range(4 if thorough else 1)]
-    interleave([ck.path(k + ".ndjson") for k in ("enum", "run", "insert", "record")], ck.path("sample.ndjson"), bulk, 64 if thorough else 16)
+    interleave([ck.path(k + ".ndjson") for k in ("enum", "lines", "run", "insert", "record")], ck.path("sample.ndjson"), bulk, 64 if thorough else 16)
     shards = min(12, ck.cores) if thorough else ck.cores
     fails = ck.validate("text", MODULE, CFG, ck.path("sample.ndjson"), shards=shards, timeout=1200)
     judge(ck, fails, origin_of)
@@ -155,7 +160,7 @@ def run(ck):
             judge(ck, more, origin_of)
             fails += more
     # every disagreement with a generator's expectation must have been rejected by the trace specification too
-    mism = sum(sums[k]["mismatches"] for k in ("enum", "run", "insert"))
+    mism = sum(sums[k]["mismatches"] for k in ("enum", "lines", "run", "insert"))
     if mism and not fails:
         ck.fatal("%d replayed cases differ from the generators' expectations but PositionTrace accepted every trace: G and T specifications disagree" % mism)
     ck.assumptions += [
